@@ -557,7 +557,7 @@ fn run(ctx: &mut Ctx) {
     // the root keeps its own name: the rewriter reads the content model of an element off its name
     let cfgs: Vec<SerCfg> = SerCfg::all().into_iter().filter(|c| c.root.is_none()).collect();
     let mut r = ctx.rng(17);
-    let n = ctx.scaled(t.pick(50_000, 600_000)) / ctx.nshards as u64 + 1;
+    let n = ctx.scaled(t.pick(50_000, 4_000_000)) / ctx.nshards as u64 + 1;
     'outer: for k in 0..n {
         let ops = &fam[(k as usize) % fam.len()];
         let vseed = r.next();
